@@ -2383,11 +2383,16 @@ impl<'a> Model<'a> {
                 self.set_str(&name, text);
             } else {
                 let t = text.trim();
+                let (lo, hi): (i64, i64) = if name.ends_with('&') {
+                    (-2147483648, 2147483647)
+                } else {
+                    (-32768, 32767)
+                };
                 let n: i64 = if t.is_empty() {
                     0
                 } else {
                     match t.parse::<i64>() {
-                        Ok(n) if (-32768..=32767).contains(&n) => n,
+                        Ok(n) if (lo..=hi).contains(&n) => n,
                         _ => {
                             return Err(Stop::Early(
                                 "numeric input the property does not define".into(),
